@@ -38,6 +38,12 @@ def plan(tier):
 @st.composite
 def cases(draw):
     recipe = draw(gen.problem_recipe(densities=(10, 10, 6, 12), styles=True, offsets=True))
+    if recipe["n"] == 1 and draw(st.integers(0, 3)) == 0:
+        # "every box": a thin 1-D box (width 1e-3..1e-9, at most 1e3 widths away from the origin), e.g. a length in
+        # metres on [0, 5e-9]; distinct trial points then differ only beyond the 10th decimal
+        w = float(10.0 ** -draw(st.integers(3, 9))) * draw(st.integers(1, 9))
+        c = draw(st.integers(-1000, 1000)) * w / 2
+        recipe = dict(recipe, lower=[c - w / 2], upper=[c + w / 2])
     iters = st.one_of(st.sampled_from([1, 2, 3, 30, 100, 300]), st.integers(5, 300), st.integers(20, 300))
     params = draw(gen.solver_params(recipe["n"], recipe["density"], iters, cheap=False))
     total = draw(st.one_of(st.integers(0, 4), st.integers(5, min(max(5, params["itersLimit"]), 120)),
